@@ -9,6 +9,7 @@
   error names the new sites with their positions.
 -/
 import Sge.Gen.NonDet
+import Sge.Gen.KeeperState
 
 namespace SgeProofs.C15Facts
 open Sge.Gen.NonDet
@@ -69,5 +70,195 @@ theorem every_allowed_site_is_justified : allowed.all (fun a => a.why != "") = t
 theorem hazards_only_in_app_wiring_and_mint_telemetry :
     sites.map (fun s => s.pkg) = ["app", "app", "app", "app", "app/keepers", "app/keepers", "x/mint", "x/mint"] := by
   decide
+
+/-
+  C15, process-local state: the state transition may depend on the committed store and on the block only, never on
+  what one process happens to remember (a replica that was restarted, or that joined by state sync, remembers
+  nothing). `Sge.Gen.KeeperState` (translator `extract/keeperstate.go`) lists
+    * `fields`: every field of the long-lived structs of the custom modules — each `Keeper`, every struct that holds
+      a Keeper (msgServer, queryServer, Hooks, AppModule), AppModule / AppModuleBasic, and every struct of this
+      repository reachable from those by value or pointer — with its type and the SHAPE of the type;
+    * `otherVars`: every package-level `var` of x/ utils/ types/ (non-test, non-simulation, non-client) that is not
+      constant-like (error values, codecs, key-prefix byte strings, generated *.pb.go tables), with the number of
+      places in the program that assign to it / to a part of it / take its address;
+    * `constLikeWritten`: the constant-like ones that are nevertheless written somewhere.
+  The theorems say: every field is a HANDLE (store key, codec, expected-keeper or hooks interface, x/params subspace,
+  authority / module-account name string, a Keeper of some module, the module-account funder whose own fields are
+  handles again) — there is no field whose type is a map, a slice, a pointer to or a value of a struct declared in
+  this repository other than those, a number, a bool, a func or a channel, i.e. nowhere to keep a cache —; the
+  inventory of fields is exactly the one written down here (a new field, even of a handle type, must be added by
+  hand); and no package-level variable is mutable state. The dynamic counterpart is the restarted replica of the
+  suite `determinism` (harness/suite_determinism.go), which forgets exactly this kind of state.
+-/
+namespace KS
+open Sge.Gen.KeeperState
+
+def storeKeyT := "github.com/cosmos/cosmos-sdk/store/types.StoreKey"
+def codecTs := ["github.com/cosmos/cosmos-sdk/codec.BinaryCodec", "github.com/cosmos/cosmos-sdk/codec.Codec"]
+def subspaceT := "github.com/cosmos/cosmos-sdk/x/params/types.Subspace"
+def hooksTs := ["x/orderbook/types.OrderBookHooks"]
+def appModuleBasicTs := ["x/bet.AppModuleBasic", "x/house.AppModuleBasic", "x/market.AppModuleBasic", "x/mint.AppModuleBasic",
+  "x/orderbook.AppModuleBasic", "x/ovm.AppModuleBasic", "x/reward.AppModuleBasic", "x/subaccount.AppModuleBasic"]
+
+/-- The handle kind of a field, decided from the shape of its type (and, where the shape alone says too little,
+    from the exact type): `none` = not a handle. -/
+def handleKind (f : Field) : Option String :=
+  if f.shape = "iface:ext" then
+    -- interface declared outside the repository: only the SDK's store-key and codec interfaces
+    if f.type = storeKeyT then some "store-key"
+    else if codecTs.contains f.type then some "codec"
+    else none
+  else if f.shape = "iface:repo" then
+    -- interface declared in x/<module>/types or utils: the expected keepers (bank, account, authz, staking,
+    -- fee grant, and the other custom modules) and the order-book hooks, all wired once in app/keepers
+    if hooksTs.contains f.type then some "hooks" else some "expected-keeper"
+  else if f.shape = "iface:error" then
+    -- the error value the funder wraps its bank errors with (a registered, constant error)
+    if f.owner = "utils.ModuleAccFunder" then some "constant-error" else none
+  else if f.shape = "extstruct" then
+    if f.type = subspaceT then some "param-subspace" else none
+  else if f.shape = "basic:string" then
+    -- x/gov's address and the fee collector's module-account name, fixed when the app is constructed
+    if f.name = "authority" || f.name = "feeCollectorName" then some "authority-string" else none
+  else if f.shape = "keeper" then
+    -- a value copy of some module's Keeper: a bundle of handles (its fields are in this table under that module)
+    some "keeper"
+  else if f.shape = "ptr:modstruct" then
+    -- x/reward's module-account funder: {bank keeper, account keeper, constant error}, listed under its own owner
+    if f.type = "*utils.ModuleAccFunder" then some "funder" else none
+  else if f.shape = "modstruct" then
+    -- AppModule embeds its AppModuleBasic ({cdc} or empty), whose fields are listed under their own owner
+    if f.name = "AppModuleBasic" && appModuleBasicTs.contains f.type then some "app-module-basic" else none
+  else none   -- maps, slices, arrays, numbers, bools, funcs, channels, pointers to anything else
+
+/-- The inventory: owner struct ↦ field names (as generated: sorted by module, owner, name). -/
+def inventory : List (String × List String) := [
+  ("x/bet.AppModule", ["AppModuleBasic", "accountKeeper", "bankKeeper", "keeper", "marketKeeper", "orderBookKeeper", "ovmKeeper"]),
+  ("x/bet.AppModuleBasic", ["cdc"]),
+  ("x/bet/keeper.Keeper", ["authority", "cdc", "marketKeeper", "memKey", "orderbookKeeper", "ovmKeeper", "paramstore", "storeKey"]),
+  ("x/bet/keeper.msgServer", ["Keeper"]),
+  ("x/house.AppModule", ["AppModuleBasic", "keeper"]),
+  ("x/house.AppModuleBasic", ["cdc"]),
+  ("x/house/keeper.Keeper", ["authority", "authzKeeper", "cdc", "orderbookKeeper", "ovmKeeper", "paramstore", "storeKey"]),
+  ("x/house/keeper.msgServer", ["Keeper"]),
+  ("x/market.AppModule", ["AppModuleBasic", "accountKeeper", "bankKeeper", "keeper", "ovmKeeper"]),
+  ("x/market.AppModuleBasic", ["cdc"]),
+  ("x/market/keeper.Keeper", ["authority", "cdc", "memKey", "orderbookKeeper", "ovmKeeper", "paramStore", "storeKey"]),
+  ("x/market/keeper.msgServer", ["Keeper"]),
+  ("x/mint.AppModule", ["AppModuleBasic", "accountKeeper", "bankKeeper", "keeper"]),
+  ("x/mint.AppModuleBasic", ["cdc"]),
+  ("x/mint/keeper.Keeper", ["authority", "bankKeeper", "cdc", "feeCollectorName", "paramstore", "stakingKeeper", "storeKey"]),
+  ("x/mint/keeper.msgServer", ["Keeper"]),
+  ("x/orderbook.AppModule", ["AppModuleBasic", "keeper"]),
+  ("x/orderbook.AppModuleBasic", ["cdc"]),
+  ("x/orderbook/keeper.Keeper", ["BetKeeper", "accountKeeper", "authority", "bankKeeper", "cdc", "feeGrantKeeper", "hooks", "houseKeeper", "marketKeeper", "ovmKeeper", "paramstore", "storeKey"]),
+  ("x/orderbook/keeper.msgServer", ["Keeper"]),
+  ("x/ovm.AppModule", ["AppModuleBasic", "accountKeeper", "bankKeeper", "keeper"]),
+  ("x/ovm.AppModuleBasic", ["cdc"]),
+  ("x/ovm/keeper.Keeper", ["authority", "cdc", "memKey", "paramStore", "storeKey"]),
+  ("x/ovm/keeper.msgServer", ["Keeper"]),
+  ("utils.ModuleAccFunder", ["ak", "bankError", "bk"]),
+  ("x/reward.AppModule", ["AppModuleBasic", "accountKeeper", "bankKeeper", "keeper"]),
+  ("x/reward.AppModuleBasic", ["cdc"]),
+  ("x/reward/keeper.Keeper", ["accountKeeper", "authority", "authzKeeper", "betKeeper", "cdc", "memKey", "modFunder", "ovmKeeper", "paramstore", "storeKey", "subaccountKeeper"]),
+  ("x/reward/keeper.msgServer", ["Keeper"]),
+  ("x/subaccount.AppModule", ["AppModuleBasic", "keeper"]),
+  ("x/subaccount/keeper.Hooks", ["k"]),
+  ("x/subaccount/keeper.Keeper", ["accountKeeper", "authority", "bankKeeper", "betKeeper", "cdc", "houseKeeper", "obKeeper", "ovmKeeper", "paramstore", "storeKey"]),
+  ("x/subaccount/keeper.msgServer", ["Keeper"]),
+  ("x/subaccount/keeper.queryServer", ["keeper"])
+]
+
+def inventoryPairs : List (String × String) := inventory.flatMap (fun p => p.2.map (fun n => (p.1, n)))
+
+/-- The package-level variables that are not constant-like by type, one by one. All of them are initialised once
+    by the Go runtime before `main` and never assigned afterwards (`writes = 0`: no assignment to the variable, to an
+    element or a field of it, no `++`/`--`, no `&v` anywhere in x/ app/ utils/ types/). -/
+structure AllowedVar where
+  pkg : String
+  name : String
+  type : String
+  why : String
+
+def allowedVars : List AllowedVar := [
+  { pkg := "x/bet/types", name := "defaultFee", type := "cosmossdk.io/math.Int",
+    why := "default bet fee used by NewParams; sdkmath.Int has value semantics (every operation returns a new Int), never assigned" },
+  { pkg := "x/bet/types", name := "defaultMinAmount", type := "cosmossdk.io/math.Int",
+    why := "default minimum bet amount used by NewParams; value semantics, never assigned" },
+  { pkg := "x/house/types", name := "maxWithdrawGrant", type := "cosmossdk.io/math.Int",
+    why := "lower bound of a withdraw authorization's limit (ValidateBasic of the authorization); read only" },
+  { pkg := "x/house/types", name := "minDepositGrant", type := "cosmossdk.io/math.Int",
+    why := "lower bound of a deposit authorization's limit (ValidateBasic of the authorization); read only" },
+  { pkg := "x/mint", name := "gaugeKeys", type := "[]string",
+    why := "telemetry key path {\"minted_tokens\"} passed to telemetry.ModuleSetGauge in BeginBlocker: metrics only, never assigned" },
+  { pkg := "x/mint/types", name := "DefaultExcludeAmount", type := "cosmossdk.io/math.Int",
+    why := "default of the ExcludeAmount parameter (DefaultParams); value semantics, never assigned" },
+  { pkg := "x/mint/types", name := "DefaultPhases", type := "[]x/mint/types.Phase",
+    why := "default inflation phases (DefaultParams, genesis defaults); no element is assigned anywhere; parameters read from the store are decoded into fresh slices, so running blocks never alias it" },
+  { pkg := "x/ovm/types", name := "minVoteMajorityForDecisionPercentage", type := "cosmossdk.io/math.LegacyDec",
+    why := "the 66.67 % majority constant of the key-change vote; LegacyDec has value semantics, never assigned" },
+  { pkg := "x/reward/types", name := "maxWithdrawGrant", type := "cosmossdk.io/math.Int",
+    why := "lower bound of a reward authorization's limit (ValidateBasic); read only" },
+  { pkg := "x/reward/types", name := "minCampaignFunds", type := "cosmossdk.io/math.Int",
+    why := "minimum campaign funds checked by MsgCreateCampaign validation; read only" },
+  { pkg := "x/subaccount/types", name := "defaultDepositEnabled", type := "bool",
+    why := "default of the DepositEnabled parameter (NewParams); a bool that is never assigned is a constant" },
+  { pkg := "x/subaccount/types", name := "defaultWagerEnabled", type := "bool",
+    why := "default of the WagerEnabled parameter (NewParams); never assigned" }
+]
+
+def varKey (v : PkgVar) : String × String × String := (v.pkg, v.name, v.type)
+def allowedVarKey (a : AllowedVar) : String × String × String := (a.pkg, a.name, a.type)
+
+end KS
+
+open Sge.Gen.KeeperState in
+#eval report "field of a keeper / module struct that is not a handle (store key, codec, expected keeper, hooks, subspace, authority string, keeper): process-local state?"
+  ((fields.filter (fun f => (KS.handleKind f).isNone)).map
+    (fun f => s!"{f.owner}.{f.name} : {f.type} [{f.shape}] @ {f.pos}"))
+
+open Sge.Gen.KeeperState in
+#eval report "field that is not in the inventory of C15Facts.lean (classify it and add it)"
+  ((fields.filter (fun f => !KS.inventoryPairs.contains (f.owner, f.name))).map
+    (fun f => s!"{f.owner}.{f.name} : {f.type} [{f.shape}] @ {f.pos}"))
+
+open Sge.Gen.KeeperState in
+#eval report "inventory entry of C15Facts.lean without a field in the source (remove it)"
+  ((KS.inventoryPairs.filter (fun p => !(fields.map (fun f => (f.owner, f.name))).contains p)).map
+    (fun p => s!"{p.1}.{p.2}"))
+
+open Sge.Gen.KeeperState in
+#eval report "package-level variable that is not constant-like and not in the allow-list of C15Facts.lean, or that is written"
+  ((otherVars.filter (fun v => !(KS.allowedVars.map KS.allowedVarKey).contains (KS.varKey v) || v.writes != 0)).map
+    (fun v => s!"{v.pkg}.{v.name} : {v.type} = {v.init} (writes: {v.writes}) @ {v.pos}"))
+
+open Sge.Gen.KeeperState in
+/-- Every field of every Keeper (and of every struct that holds one, of every AppModule, and of every repository
+    struct reachable from them) is a handle: there is no field that could hold decoded state between two calls. -/
+theorem keeper_fields_are_handles : fields.all (fun f => (KS.handleKind f).isSome) = true := by decide +kernel
+
+open Sge.Gen.KeeperState in
+/-- The fields found in the source are exactly the inventory above, struct by struct. -/
+theorem keeper_field_inventory_is_exact : fields.map (fun f => (f.owner, f.name)) = KS.inventoryPairs := by
+  decide +kernel
+
+open Sge.Gen.KeeperState in
+/-- All eight custom modules are covered: each has a `Keeper` with a store key, a codec and a parameter subspace. -/
+theorem every_module_keeper_is_listed :
+    ["bet", "house", "market", "mint", "orderbook", "ovm", "reward", "subaccount"].all (fun m =>
+      ["store-key", "codec", "param-subspace"].all (fun k =>
+        fields.any (fun f => f.module == m && f.owner == s!"x/{m}/keeper.Keeper" && KS.handleKind f == some k))) = true := by
+  decide +kernel
+
+open Sge.Gen.KeeperState in
+/-- No package-level mutable state: the variables that are not constant-like by type are exactly the allow-listed
+    ones (each with a reason) and none of them is ever written; the constant-like ones that are "written" are only
+    the generated gRPC service descriptors, whose address is passed to the service registrars at start-up. -/
+theorem no_package_level_mutable_state :
+    otherVars.map KS.varKey = KS.allowedVars.map KS.allowedVarKey ∧
+      otherVars.all (fun v => v.writes == 0) = true ∧
+      constLikeWritten.all (fun v => v.cls == "generated-pb" && (v.name == "_Msg_serviceDesc" || v.name == "_Query_serviceDesc")) = true ∧
+      KS.allowedVars.all (fun a => a.why != "") = true := by
+  decide +kernel
 
 end SgeProofs.C15Facts
